@@ -347,7 +347,37 @@ class EffectAnalysis:
         return [], "unresolved"
 
     # -------------------------------------------------------------- summary
+    def initial_env(self, fn: FuncInfo):
+        sn = fn.self_name
+        a = fn.node.args
+        params = [x.arg for x in a.posonlyargs + a.args + a.kwonlyargs]
+        if a.vararg:
+            params.append(a.vararg.arg)
+        if a.kwarg:
+            params.append(a.kwarg.arg)
+        env: dict[str, frozenset] = {}
+        for p_ in params:
+            if p_ == sn and fn.kind != "classmethod":
+                env[p_] = frozenset({("self",)})
+            elif p_ == sn and fn.kind == "classmethod":
+                env[p_] = frozenset({("global", fn.cls.name if fn.cls else "cls")})
+            else:
+                env[p_] = frozenset({("param", p_, 0)})
+        return env
+
+    @staticmethod
+    def _join(e1: dict, e2: dict) -> dict:
+        out = dict(e1)
+        for k, v in e2.items():
+            out[k] = out.get(k, frozenset({("fresh",)})) | v if k in out else v | frozenset({("fresh",)})
+        for k in e1:
+            if k not in e2:
+                out[k] = e1[k] | frozenset({("fresh",)})
+        return out
+
     def summary(self, fn: FuncInfo, K: ClassInfo | None = None, depth=0, stack=()) -> frozenset:
+        """Flow-sensitive (structured) abstract interpretation of one function:
+        assignments to local names are strong updates, branches are joined."""
         if K is None:
             K = fn.cls
         key = (fn, K)
@@ -357,138 +387,266 @@ class EffectAnalysis:
             return frozenset()
         if self.scope is not None and fn.module not in self.scope:
             return frozenset()
-        env, globals_decl = self.env(fn, K)
         effects: set[Effect] = set()
+        globals_decl = {nm for n in ast.walk(fn.node) if isinstance(n, ast.Global) for nm in n.names}
         where = lambda n: f"{fn.module.relpath}:{getattr(n, 'lineno', 0)}"  # noqa: E731
+        A = self
+
+        cur_stmt = [None]
 
         def mk(kind, target, n):
-            return Effect(kind, target, getattr(n, "lineno", 0), where(n), (), (fn, target, unparse(n)[:90]), (fn,))
+            text_node = n
+            if isinstance(n, ast.expr) and cur_stmt[0] is not None and isinstance(cur_stmt[0], (ast.Assign, ast.AugAssign, ast.AnnAssign, ast.Delete)):
+                text_node = cur_stmt[0]
+            return Effect(kind, target, getattr(n, "lineno", 0), where(n), (), (fn, target, unparse(text_node)[:90]), (fn,))
 
         def lift(e, tgt, kind=None, target=None):
             return Effect(kind or e.kind, target or e.target, e.line, e.where, (tgt.qualname,) + e.via, e.origin, (fn,) + e.chain)
 
-        def hit(kind, tags, n, via=()):
+        def hit(kind, tags, n):
             for t in tags:
                 if t[0] in ("copy", "box"):
                     continue
-                k = "mutate" if kind.startswith("mutate") else kind
                 if t[0] in ("field", "param", "global"):
-                    effects.add(mk(k, t, n))
-                elif t[0] == "self" and k == "store":
-                    effects.add(mk(k, t, n))
+                    effects.add(mk(kind, t, n))
+                elif t[0] == "self" and kind == "store":
+                    effects.add(mk(kind, t, n))
 
-        for n in ast.walk(self.body(fn)):
-            if isinstance(n, (ast.Assign, ast.AugAssign, ast.AnnAssign, ast.Delete)):
-                if isinstance(n, ast.Assign):
-                    targets = n.targets
-                elif isinstance(n, ast.Delete):
-                    targets = n.targets
-                else:
-                    targets = [n.target]
-                    if isinstance(n, ast.AnnAssign) and n.value is None:
-                        continue
-                for t in _flatten(targets):
-                    if isinstance(t, ast.Attribute):
-                        base = self.eval(t.value, env, fn, K)
-                        for b in base:
-                            if b[0] == "self":
-                                m = K.lookup(t.attr) if K is not None else None
-                                if m and m[1] == "prop":
-                                    st = m[2].setter
-                                    if st is not None:
-                                        for e in self.summary(st, K, depth + 1, stack + (key,)):
-                                            effects.add(lift(e, st))
-                                else:
-                                    effects.add(mk("store", ("field", t.attr, 0), n))
-                            elif b[0] in ("copy", "box"):
-                                continue
-                            elif b[0] in ("field", "param"):
-                                effects.add(mk("mutate", b, n))
-                            elif b[0] == "global":
-                                effects.add(mk("store", ("global", f"{b[1]}.{t.attr}"), n))
-                    elif isinstance(t, ast.Subscript):
-                        hit("mutate", self.eval(t.value, env, fn, K), n)
-                    elif isinstance(t, ast.Name):
-                        if t.id in globals_decl:
-                            effects.add(mk("store", ("global", t.id), n))
-                        elif isinstance(n, ast.AugAssign):
-                            # x += [...] mutates a list in place
-                            tags = {tg for tg in env.get(t.id, set()) if tg[0] in ("field", "param", "global")}
-                            if tags and isinstance(n.op, (ast.Add, ast.BitOr, ast.BitAnd, ast.Sub)):
-                                hit("mutate", tags, n)
-            elif isinstance(n, ast.Call):
-                f = n.func
-                if isinstance(f, ast.Attribute) and f.attr in MUTATORS:
-                    base = self.eval(f.value, env, fn, K)
-                    if any(b[0] in ("field", "param", "global") for b in base):
-                        # do not confuse project methods named update()/remove()… resolved below
-                        cal, kind = self.callees(fn, K, n, env)
-                        if kind in ("builtin", "unresolved", "cha", "external"):
-                            hit("mutate", base, n)
-                            if kind != "cha":
-                                continue
-                if isinstance(f, ast.Name) and f.id == "setattr" and len(n.args) == 3:
-                    base = self.eval(n.args[0], env, fn, K)
-                    name = n.args[1].value if isinstance(n.args[1], ast.Constant) else "<dynamic>"
-                    for b in base:
-                        if b[0] == "self":
-                            m = K.lookup(name) if K is not None and name != "<dynamic>" else None
-                            if m and m[1] == "prop" and m[2].setter is not None:
-                                for e in self.summary(m[2].setter, K, depth + 1, stack + (key,)):
-                                    effects.add(lift(e, m[2].setter))
-                            else:
-                                effects.add(mk("store", ("field", name, 0), n))
-                        elif b[0] in ("field", "param"):
-                            effects.add(mk("mutate", b, n))
+        def ev(e, env):
+            return A.eval(e, env, fn, K)
+
+        def setter_effects(st, n):
+            for e in A.summary(st, K, depth + 1, stack + (key,)):
+                effects.add(lift(e, st))
+
+        def visit_call(n: ast.Call, env):
+            f = n.func
+            if isinstance(f, ast.Attribute) and f.attr in MUTATORS:
+                base = ev(f.value, env)
+                if any(b[0] in ("field", "param", "global") for b in base):
+                    cal, kind = A.callees(fn, K, n, env)
+                    if kind in ("builtin", "unresolved", "cha", "external"):
+                        hit("mutate", base, n)
+                        if kind != "cha":
+                            return
+            if isinstance(f, ast.Name) and f.id == "setattr" and len(n.args) == 3:
+                base = ev(n.args[0], env)
+                name = n.args[1].value if isinstance(n.args[1], ast.Constant) else "<dynamic>"
+                for b in base:
+                    if b[0] == "self":
+                        m = K.lookup(name) if K is not None and name != "<dynamic>" else None
+                        if m and m[1] == "prop" and m[2].setter is not None:
+                            setter_effects(m[2].setter, n)
+                        else:
+                            effects.add(mk("store", ("field", name, 0), n))
+                    elif b[0] in ("field", "param"):
+                        effects.add(mk("mutate", b, n))
+                return
+            cal, kind = A.callees(fn, K, n, env)
+            if kind == "unresolved" and isinstance(f, ast.Attribute):
+                A.unresolved.append(f"{where(n)} {unparse(f)[:40]}")
+            for tgt, recv in cal:
+                Kc = tgt.cls
+                if recv and ("self",) in recv and K is not None and tgt.cls is not None and tgt.cls in K.mro:
+                    Kc = K
+                sub = A.summary(tgt, Kc, depth + 1, stack + (key,))
+                if not sub:
                     continue
-                cal, kind = self.callees(fn, K, n, env)
-                if kind == "unresolved" and isinstance(f, ast.Attribute):
-                    self.unresolved.append(f"{where(n)} {unparse(f)[:40]}")
-                for tgt, recv in cal:
-                    Kc = tgt.cls
-                    if recv and ("self",) in recv and K is not None and tgt.cls is not None and tgt.cls in K.mro:
-                        Kc = K
-                    sub = self.summary(tgt, Kc, depth + 1, stack + (key,))
-                    if not sub:
-                        continue
-                    argmap = _argmap(tgt, n, bound=recv is not None and tgt.kind in ("method", "getter", "setter") and not (kind == "class-attr"))
-                    for e in sub:
-                        tt = e.target
-                        if tt[0] == "global":
-                            effects.add(lift(e, tgt))
-                        elif tt[0] in ("field", "self"):
-                            if not recv:
+                argmap = _argmap(tgt, n, bound=recv is not None and tgt.kind in ("method", "getter", "setter") and not (kind == "class-attr"))
+                for e in sub:
+                    tt = e.target
+                    if tt[0] == "global":
+                        effects.add(lift(e, tgt))
+                    elif tt[0] in ("field", "self"):
+                        if not recv:
+                            continue
+                        for r in recv:
+                            if r[0] == "self":
+                                effects.add(lift(e, tgt))
+                            elif r[0] in ("field", "param"):
+                                effects.add(lift(e, tgt, "mutate", elem(r)))
+                    elif tt[0] == "param":
+                        arg = argmap.get(tt[1])
+                        if arg is None:
+                            continue
+                        for t in ev(arg, env):
+                            d = tt[2]
+                            while t[0] in ("copy", "box") and d > 0:
+                                t = elem(t)
+                                d -= 1
+                            if t[0] in ("copy", "box"):
                                 continue
-                            for r in recv:
-                                if r[0] == "self":
-                                    effects.add(lift(e, tgt))
-                                elif r[0] in ("field", "param"):
-                                    effects.add(lift(e, tgt, "mutate", elem(r)))
-                                elif r[0] == "copy":
-                                    rr = elem(r)
-                                    if rr[0] in ("field", "param"):
-                                        pass  # the copy itself is fresh; its own fields are not shared
-                        elif tt[0] == "param":
-                            arg = argmap.get(tt[1])
-                            if arg is None:
-                                continue
-                            tags = self.eval(arg, env, fn, K)
-                            for t in tags:
-                                d = tt[2]
-                                if t[0] in ("copy", "box"):
-                                    if d == 0:
-                                        continue
-                                    t = elem(t)
-                                    d -= 1
-                                    while t[0] in ("copy", "box") and d > 0:
-                                        t = elem(t)
-                                        d -= 1
-                                    if t[0] in ("copy", "box"):
-                                        continue
-                                if t[0] in ("field", "param"):
-                                    effects.add(lift(e, tgt, "mutate", (t[0], t[1], t[2] + d)))
-                                elif t[0] == "global":
-                                    effects.add(lift(e, tgt, "mutate", t))
+                            if t[0] in ("field", "param"):
+                                effects.add(lift(e, tgt, "mutate", (t[0], t[1], t[2] + d)))
+                            elif t[0] == "global":
+                                effects.add(lift(e, tgt, "mutate", t))
+
+        def visit_expr(e, env):
+            """Effects of evaluating an expression (calls, comprehensions with their own scope)."""
+            if e is None:
+                return
+            if isinstance(e, (ast.ListComp, ast.SetComp, ast.GeneratorExp, ast.DictComp)):
+                cenv = dict(env)
+                for gen in e.generators:
+                    visit_expr(gen.iter, cenv)
+                    bind(gen.target, frozenset(elem(t) for t in ev(gen.iter, cenv)), None, cenv, spread=True)
+                    for c in gen.ifs:
+                        visit_expr(c, cenv)
+                if isinstance(e, ast.DictComp):
+                    visit_expr(e.key, cenv)
+                    visit_expr(e.value, cenv)
+                else:
+                    visit_expr(e.elt, cenv)
+                return
+            if isinstance(e, ast.Lambda):
+                return
+            for ch in ast.iter_child_nodes(e):
+                if isinstance(ch, ast.expr):
+                    visit_expr(ch, env)
+                elif isinstance(ch, ast.keyword):
+                    visit_expr(ch.value, env)
+            if isinstance(e, ast.Call):
+                visit_call(e, env)
+            if isinstance(e, ast.NamedExpr) and isinstance(e.target, ast.Name):
+                env[e.target.id] = frozenset(ev(e.value, env))
+
+        def bind(target, tags, value_node, env, spread=False):
+            if isinstance(target, ast.Name):
+                if target.id in globals_decl:
+                    effects.add(mk("store", ("global", target.id), target))
+                else:
+                    env[target.id] = frozenset(tags) or frozenset({("fresh",)})
+            elif isinstance(target, (ast.Tuple, ast.List)):
+                if value_node is not None and isinstance(value_node, (ast.Tuple, ast.List)) and len(value_node.elts) == len(target.elts):
+                    vals = [frozenset(ev(v, env)) for v in value_node.elts]  # rhs evaluated before any binding
+                    for t, v in zip(target.elts, vals):
+                        bind(t, v, None, env, spread=True)
+                else:
+                    sub = frozenset(tags) if spread else frozenset(elem(t) for t in tags)
+                    for t in target.elts:
+                        bind(t, sub, None, env, spread=True)
+            elif isinstance(target, ast.Starred):
+                bind(target.value, tags, None, env, spread)
+            elif isinstance(target, ast.Attribute):
+                store_attr(target, env, target)
+            elif isinstance(target, ast.Subscript):
+                visit_expr(target.value, env)
+                visit_expr(target.slice, env)
+                hit("mutate", ev(target.value, env), target)
+
+        def store_attr(t: ast.Attribute, env, n):
+            visit_expr(t.value, env)
+            for b in ev(t.value, env):
+                if b[0] == "self":
+                    m = K.lookup(t.attr) if K is not None else None
+                    if m and m[1] == "prop":
+                        if m[2].setter is not None:
+                            setter_effects(m[2].setter, n)
+                    else:
+                        effects.add(mk("store", ("field", t.attr, 0), n))
+                elif b[0] in ("copy", "box"):
+                    continue
+                elif b[0] in ("field", "param"):
+                    effects.add(mk("mutate", b, n))
+                elif b[0] == "global":
+                    effects.add(mk("store", ("global", f"{b[1]}.{t.attr}"), n))
+
+        def exec_block(stmts, env):
+            for st in stmts:
+                env = exec_stmt(st, env)
+            return env
+
+        def exec_stmt(st, env):
+            cur_stmt[0] = st
+            if isinstance(st, ast.Assign):
+                visit_expr(st.value, env)
+                tags = frozenset(ev(st.value, env))
+                for t in st.targets:
+                    bind(t, tags, st.value, env)
+                return env
+            if isinstance(st, ast.AnnAssign):
+                if st.value is not None:
+                    visit_expr(st.value, env)
+                    bind(st.target, frozenset(ev(st.value, env)), st.value, env)
+                return env
+            if isinstance(st, ast.AugAssign):
+                visit_expr(st.value, env)
+                t = st.target
+                if isinstance(t, ast.Name):
+                    if t.id in globals_decl:
+                        effects.add(mk("store", ("global", t.id), st))
+                    else:
+                        tags = {tg for tg in env.get(t.id, frozenset()) if tg[0] in ("field", "param", "global")}
+                        if tags and isinstance(st.op, (ast.Add, ast.BitOr, ast.BitAnd, ast.Sub)):
+                            hit("mutate", tags, st)
+                elif isinstance(t, ast.Attribute):
+                    store_attr(t, env, st)
+                elif isinstance(t, ast.Subscript):
+                    visit_expr(t.value, env)
+                    hit("mutate", ev(t.value, env), st)
+                return env
+            if isinstance(st, ast.Delete):
+                for t in st.targets:
+                    if isinstance(t, ast.Subscript):
+                        visit_expr(t.value, env)
+                        hit("mutate", ev(t.value, env), st)
+                    elif isinstance(t, ast.Attribute):
+                        store_attr(t, env, st)
+                    elif isinstance(t, ast.Name):
+                        env.pop(t.id, None)
+                return env
+            if isinstance(st, (ast.Expr, ast.Return)):
+                visit_expr(st.value, env)
+                return env
+            if isinstance(st, ast.Raise):
+                visit_expr(st.exc, env)
+                return env
+            if isinstance(st, ast.Assert):
+                visit_expr(st.test, env)
+                return env
+            if isinstance(st, ast.If):
+                visit_expr(st.test, env)
+                e1 = exec_block(st.body, dict(env))
+                e2 = exec_block(st.orelse, dict(env))
+                return A._join(e1, e2)
+            if isinstance(st, (ast.For, ast.AsyncFor)):
+                visit_expr(st.iter, env)
+                cur = dict(env)
+                for _ in range(2):
+                    benv = dict(cur)
+                    bind(st.target, frozenset(elem(t) for t in ev(st.iter, benv)), None, benv, spread=True)
+                    benv = exec_block(st.body, benv)
+                    cur = A._join(cur, benv)
+                return exec_block(st.orelse, cur)
+            if isinstance(st, ast.While):
+                cur = dict(env)
+                for _ in range(2):
+                    visit_expr(st.test, cur)
+                    benv = exec_block(st.body, dict(cur))
+                    cur = A._join(cur, benv)
+                return exec_block(st.orelse, cur)
+            if isinstance(st, (ast.With, ast.AsyncWith)):
+                for it in st.items:
+                    visit_expr(it.context_expr, env)
+                    if it.optional_vars is not None:
+                        bind(it.optional_vars, frozenset(ev(it.context_expr, env)), None, env, spread=True)
+                return exec_block(st.body, env)
+            if isinstance(st, ast.Try):
+                e_body = exec_block(st.body, dict(env))
+                merged = A._join(env, e_body)
+                outs = [exec_block(st.orelse, dict(e_body))]
+                for h in st.handlers:
+                    henv = dict(merged)
+                    if h.name:
+                        henv[h.name] = frozenset({("fresh",)})
+                    outs.append(exec_block(h.body, henv))
+                res_env = outs[0]
+                for o in outs[1:]:
+                    res_env = A._join(res_env, o)
+                return exec_block(st.finalbody, res_env)
+            return env
+
+        exec_block(fn.node.body, self.initial_env(fn))
         res = frozenset(effects)
         self.memo[key] = res
         return res
